@@ -22,7 +22,13 @@ package api
 //@ ghost ntsrc map[int]*model.FeatureAddressType
 //@ ghost ntdst map[int]*model.FeatureAddressType
 //@ ghost ntcmd map[int]int
-//@ modset NTLOG = ntn, nts, ntsrc, ntdst, ntcmd
+// log of fan-out requests (C08): nsn calls of DeviceLocalInterface.NotifySubscribers so far; nsdev/nsaddr/nscmd[k]: device,
+// address of the changed server feature and command (as cmdKey) of the k-th call
+//@ ghost nsn int
+//@ ghost nsdev map[int]any
+//@ ghost nsaddr map[int]*model.FeatureAddressType
+//@ ghost nscmd map[int]int
+//@ modset NTLOG = ntn, nts, ntsrc, ntdst, ntcmd, nsn, nsdev, nsaddr, nscmd
 // log of entity removals requested from a remote device (C06): ren calls so far, redev/readdr[k] device and address
 //@ ghost ren int
 //@ ghost redev map[int]any
@@ -157,6 +163,7 @@ package api
 //@   ensures result1 != nil ==> result1.ErrorNumber != model.ErrorNumberTypeNoError
 //@   modifies world
 //@ iface api.DeviceLocalInterface.NotifySubscribers
+//@   ensures nsn == old(nsn) + 1 && nsdev == store(old(nsdev), old(nsn), self) && nsaddr == store(old(nsaddr), old(nsn), featureAddress) && nscmd == store(old(nscmd), old(nsn), cmdKey(cmd))
 //@   modifies outmisc, held, @NTLOG
 
 // registries and remote tree, as seen from node management (no responses are sent by them)
